@@ -11,7 +11,8 @@
     magicBlock, compressBound are regenerated from the Go source. *)
 From Coq Require Import ZArith List Bool.
 From Hts Require Import Base.Prim Base.WrList Generated Model.Bgzf Model.Writer Model.WriterConc
-  Proofs.Bgzf Proofs.Writer Proofs.WriterConc Proofs.WriterThms Proofs.WrSkel Proofs.WriterTerm.
+  Model.Flat Model.Reader Proofs.Bgzf Proofs.Writer Proofs.WriterConc Proofs.WriterThms Proofs.WrSkel Proofs.WriterTerm
+  Proofs.ReaderFlat Proofs.ReaderStore Proofs.WriterReader Proofs.WriterReaderThms Model.WriterEnabled Proofs.WriterProgress.
 Import ListNotations.
 Open Scope Z_scope.
 
@@ -31,6 +32,37 @@ Theorem bgzf_roundtrip :
     /\ has_eof (wr_out deflate crc32 lvl h s) = true.
 Proof. exact bgzf_roundtrip_gen. Qed.
 Print Assumptions bgzf_roundtrip.
+
+(** Reader side: composition with the model of the real bgzf.Reader
+    (Model/Reader.v, C02: reader.go + cache.go with blocks as store objects,
+    proved to refine the flat reader).  For every script followed by Close:
+    the bytes of the finished writer ARE the BGZF file [wr_file] - at every
+    member's base the stream continues with a member of m_size = BSIZE+1 bytes
+    that a BGZF reader decodes to m_data ([members_at]) -, the file is
+    well-formed for the Reader (members of at most 65280 data bytes, so the
+    65536-byte corner of C02 does not arise: [addressable]), and for EVERY mix
+    of Read n (n >= 0) and ReadByte calls ([read_op]) the modelled Reader
+    starts without error, every call returns, and ([reads_ok]) each call
+    delivers exactly the next min(wanted, remaining) bytes of the written data
+    and reports io.EOF iff it delivered fewer bytes than wanted or the data
+    was already exhausted.  [ch] is the Reader model's choice list
+    (irrelevant without a cache). *)
+Theorem bgzf_roundtrip_reader :
+  forall deflate inflate crc32, codec_laws deflate inflate crc32 ->
+  forall lvl h, hdr_ok h ->
+  forall script fuel,
+    let s := run_writer fuel (script ++ [OpClose]) in
+    sdone s = true ->
+    let F := wr_file deflate crc32 lvl h s in
+    wf_file F = true /\ F <> [] /\ addressable F = true
+    /\ members_at (bgzf_member inflate crc32) (wr_out deflate crc32 lvl h s) F
+    /\ flat_data F = written (script ++ [OpClose])
+    /\ forall ch ops, Forall read_op ops ->
+         snd (r_init F) = eNil /\
+         exists l, r_run F ch (fst (r_init F)) ops = Ok l
+                   /\ reads_ok (written (script ++ [OpClose])) 0 ops (rets l).
+Proof. exact roundtrip_reader. Qed.
+Print Assumptions bgzf_roundtrip_reader.
 
 (** The sequential writer machine finishes every script (so the premise
     [sdone s = true] above can always be met). *)
@@ -65,6 +97,26 @@ Theorem closed_writer_is_quiescent :
     s_eof (x_api st) = true -> quiescent st.
 Proof. exact closed_quiescent_gen. Qed.
 Print Assumptions closed_writer_is_quiescent.
+
+(** No deadlock: for every wc, script and schedule (fault-free underlying
+    writer), in every reachable state in which the caller has not finished its
+    script, the caller, the emitter or a compressor goroutine is enabled
+    ([some_enabled]: the guards of the model's channel operations,
+    Model/WriterEnabled.v; a thread that is not enabled does not move:
+    [api_blocked_noop], [emit_blocked_noop]).  So no call of the script blocks
+    for ever: the pipeline is never Stuck. *)
+Theorem writer_conc_no_deadlock :
+  forall deflate inflate crc32, codec_laws deflate inflate crc32 ->
+  forall lvl h, hdr_ok h ->
+  forall wc script sched,
+    let st := wr_conc deflate crc32 lvl h wc script sched in
+    cdone st = false -> some_enabled st.
+Proof.
+  exact (fun d i c laws lvl h ok wc script sched =>
+           run_no_stuck d c bgzf_wr_patch_mode bgzf_wr_patch_guard bgzf_wr_overflow_check lvl h no_fault
+                        (fun _ => eq_refl) (proj1 (proj2 laws)) gen_patch_at_12 (proj1 ok) (proj2 ok) wc script sched).
+Qed.
+Print Assumptions writer_conc_no_deadlock.
 
 (** compressBound(BlockSize) <= MaxBlockSize on the regenerated constants, and
     under the size law no default-header member reaches 64 KiB: writeBlock
